@@ -465,13 +465,18 @@ def c17_special(pid, prop, tier, seed, b):
     if not ok:
         return [], [], [], [], dict(problems=[('go-build', 'seqls does not build: ' + msg)])
     root = infra.disk_root()
-    ntrees = 25 if tier == 'quick' else 400
+    ntrees = 35 if tier == 'quick' else 420
     cases, failures, disagreements, impl_lines = [], [], [], []
     runs = []
     for t in range(ntrees):
         mode = ['plain', 'narrow', 'leaflinks', 'nested', 'aliased', 'plain', 'chain'][t % 7]
         aliased = mode in ('aliased', 'nested')
         dirs, files, links = gen_tree(rng, mode)
+        for _ in range(30):
+            # a leaflinks tree needs its shape: a holder with >= 2 links that is itself reached through one more link
+            if mode != 'leaflinks' or len(links) >= 3:
+                break
+            dirs, files, links = gen_tree(rng, mode)
         troot = '%s/t%d' % (root, t)
         os.makedirs(troot)
         build_tree(troot, dirs, files, links, rel_links=(mode == 'chain' or (mode != 'nested' and rng.random() < 0.5)))
